@@ -130,6 +130,7 @@ PROBES = [(1, 0), (0.5, 0), (-0.5, 0), (0.25, 0), (-0.25, 0), (0, 0), (1, -0.5),
 def run(ctx):
     repo = ctx.repo
     _phased_x_export(ctx, repo)
+    _condition_export_covers_fields(ctx, repo)
     ctx.decided += [
         'C19.a emitted QASM of the table-defined gate families == gate matrix up to global phase (probe exponents/shifts; qelib1 semantics held in the checker)',
         'C19.b every mnemonic in every _qasm_ format string exists in qelib1/stdgates with that parameter and operand count; operands distinct; angles printed as half turns',
@@ -819,3 +820,42 @@ def _phased_x_export(ctx, repo):
                    construct=f'{ci.qual}._qasm_')
     if n == 0:
         raise AnalysisError('PhasedXPowGate._qasm_ declines every probe')
+
+
+def _condition_export_covers_fields(ctx, repo):
+    """C19.j - the QASM text of a classical condition depends on every field that changes what the condition tests."""
+    from .. import fields as F
+    ctx.decided.append('C19.j _qasm_ of every Condition class reads each of its declared fields (writes it or refuses under a test of it): a field nobody reads is exported as its default')
+    ctx.rule('C19.j', 'condition export covers the fields: for every subclass of cirq.value.condition.Condition that defines _qasm_ (or the `qasm` property it returns), each annotated '
+             'class-level field of the class is read in that method (through helpers and properties) - KeyCondition(key, index): a condition on an earlier record must not be exported '
+             'as a condition on the latest one', floor=3, style='COH')
+    base = repo.cls('cirq.value.condition.Condition')
+    n = 0
+    for ci in sorted(repo.subclasses(base), key=lambda c: c.qual):
+        if '.testing.' in ci.qual:
+            continue
+        fn = ci.methods.get('_qasm_')
+        qp = ci.methods.get('qasm')
+        if fn is None and qp is None:
+            continue
+        flds = [st.target.id for st in ci.node.body if isinstance(st, ast.AnnAssign) and isinstance(st.target, ast.Name) and not st.target.id.startswith('_')]
+        if not flds:
+            continue
+        from ..flow import always_raises
+        # the effective exporter: _qasm_ of the class, else the inherited one, which returns the `qasm` property
+        eff = fn if fn is not None else qp
+        if always_raises([s_ for s_ in eff.body if not (isinstance(s_, ast.Expr) and isinstance(s_.value, ast.Constant))]):
+            n += 1
+            ctx.ob('C19.j', f'{ci.qual}._qasm_:refuses', True, 'the export refuses this kind of condition outright', ci.mod.rel, eff.lineno)
+            continue
+        reads = set()
+        for f_ in (fn, qp):
+            if f_ is not None:
+                reads |= {F.norm_field(repo, ci, r_) for r_ in F.self_reads(repo, ci, f_, depth=2)} | set(F.self_reads(repo, ci, f_, depth=2))
+        for fl in flds:
+            n += 1
+            ok = fl in reads or ('_' + fl) in reads
+            ctx.ob('C19.j', f'{ci.qual}._qasm_:{fl}', ok, '' if ok else
+                   f'the exported condition never looks at `{fl}`: two conditions that differ in it are written as the same QASM test', ci.mod.rel, (fn or qp).lineno)
+    if n == 0:
+        raise AnalysisError('C19.j: no Condition class with a QASM export found')
